@@ -1,3 +1,16 @@
+#!/usr/bin/env python3
+"""Supporting evidence for Model/NormalFast.v (NOT a proof): is there a 64-bit significand for which
+parse_floating_normal_fast (sonic-number/src/lib.rs) evaluates `add + 1` with add == u64::MAX, the one
+arithmetic overflow the theorem normal_fast_panics_only_on_all_ones leaves open for checked builds?
+
+That happens iff, for the table entry T = sig2 * 2^64 + sig2_ext of some exponent in the guarded range and some
+normalised significand x in [2^63, 2^64), the 192-bit product x * T has its middle word all ones and the low nine
+bits of its top word all equal, i.e. (x * T mod 2^137) lies in one of two windows of width 2^64. For each T the
+points (x*T mod 2^137, x) form a 2-dimensional lattice; after Lagrange reduction the lattice points near the centre of
+each window are enumerated (Babai rounding, +-R neighbours). The enumeration is validated with wider windows, for
+which the number of hits must be close to the expected density (printed). Result on the pinned tree: no input.
+
+usage: lattice_search.py        (reads /repo/sonic-number/src/table.rs)"""
 import re
 from fractions import Fraction
 src = open('/repo/sonic-number/src/table.rs').read()
